@@ -9,6 +9,14 @@ mod capi;
 /// runs one case line; its log ends up in this thread's output buffer.  A panic that escapes a case (e.g. a debug
 /// assertion inside a handler callback) ends that case only.
 fn run_line(line: &str) {
+    // "stack=<KiB>": the case runs on its own thread with that much stack (C15: stack use must not grow with the input;
+    // a small stack makes a per-repetition frame visible on inputs the model can still evaluate quickly)
+    if let Some(kib) = line.split(' ').find_map(|t| t.strip_prefix("stack=")).and_then(|v| v.parse::<usize>().ok()) {
+        let l = line.replacen(&format!(" stack={kib}"), "", 1);
+        let out = std::thread::Builder::new().stack_size(kib * 1024).spawn(move || { run_line(&l); util::take_out() }).unwrap().join().unwrap_or_default();
+        util::push_out(&out);
+        return;
+    }
     let kind = line.split(' ').next().map(|s| s.to_string());
     let r = std::panic::catch_unwind(std::panic::AssertUnwindSafe(|| match kind.as_deref() {
         Some("L1") => l1::run_case(line),
@@ -32,12 +40,17 @@ fn main() {
     use std::io::BufRead;
     match mode.as_str() {
         // every case on the main thread, one after the other
+        // (on one worker thread with the default stack of a spawned Rust thread, 2 MiB: stack use that grows with the
+        // input -- C15 -- then ends the process, which ./check reports with the unfinished case as the replay)
         "cases" => {
-            let stdin = std::io::stdin();
-            for line in stdin.lock().lines() {
-                run_line(&line.unwrap());
-                print!("{}", util::take_out());
-            }
+            let worker = std::thread::Builder::new().stack_size(2 * 1024 * 1024).spawn(|| {
+                let stdin = std::io::stdin();
+                for line in stdin.lock().lines() {
+                    run_line(&line.unwrap());
+                    print!("{}", util::take_out());
+                }
+            }).unwrap();
+            let _ = worker.join();
         }
         // the same cases spread over N worker threads that run concurrently (each worker takes the next unclaimed case);
         // logs are printed in input order, so the output is comparable line by line with the sequential run
